@@ -91,11 +91,12 @@ static double tokrat(char **sp)
     return (double)a / (double)b;
 }
 
-static double pow10i(int e)
+/* m * 10^-e as the nearest double (10^k is exact up to k = 22; beyond that pow() is within an ulp or two,
+ * far below the nine digits the edges carry) */
+static double dec(long long m, int e)
 {
-    double r = 1.0;
-    for (int i = 0; i < e; i++) r *= 10.0;   /* exact up to 10^22 */
-    return r;
+    if (e >= 0) return (e <= 22) ? (double)m / pow(10.0, e) : (double)m / pow(10.0, 22) / pow(10.0, e - 22);
+    return (double)m * pow(10.0, -e);
 }
 
 static bool parse_case(char *line, struct cas *c)
@@ -123,7 +124,7 @@ static bool parse_case(char *line, struct cas *c)
             if (c->ne > MAXE) { fprintf(stderr, "too many edges\n"); exit(2); }
             for (int i = 0; i < c->ne; i++) {
                 const long long m = tokll(&sp); const int e = (int)tokll(&sp);
-                c->edges[i] = (double)org + (double)m / pow10i(e);
+                c->edges[i] = (double)org + dec(m, e);
             }
         }
         else if (strcmp(t, "bins") == 0) {
@@ -246,7 +247,7 @@ static int fit_case(const struct cas *c)
     struct cmb_random_alias *ap = NULL;
     if (IS("alias")) {
         ap = cmb_random_alias_create((unsigned)c->n2, c->v2);
-        fprintf(out, "{\"op\":\"atab\",\"case\":%d,\"id\":\"%s\",\"n\":%u,\"qb\":%d,\"q\":[", c->idx, c->id, ap->n, c->qb);
+        fprintf(out, "{\"op\":\"atab\",\"case\":%d,\"id\":\"%s\",\"s\":\"alias\",\"n\":%u,\"qb\":%d,\"q\":[", c->idx, c->id, ap->n, c->qb);
         for (unsigned i = 0; i < ap->n; i++) fprintf(out, "%s%llu", i ? "," : "", (unsigned long long)(ap->uprob[i] >> (64 - c->qb)));
         fprintf(out, "],\"full\":[");
         for (unsigned i = 0; i < ap->n; i++) fprintf(out, "%s%s", i ? "," : "", ap->uprob[i] == UINT64_MAX ? "true" : "false");
